@@ -1027,7 +1027,7 @@ class Parsent(object):
                     bodyParser.close()
                     break
                 (yield None)
-        except HTTPException as ex:
+        except (HTTPException, ValueError) as ex:  # ValueError from int(), decode(), urlsplit()
             self.errored = True
             self.error = str(ex)
 
